@@ -4,7 +4,8 @@ independent left-to-right specification.
 
 Spec: scanning left to right, an entity reference (as ENTITY_RE matches it) is literal text
 including its final ';'; ';;' is a literal ';'; any other ';' ends the current part.  A blank last
-part after a separator is dropped.
+part after a separator is dropped.  Each part is a Token whose position is the offset at which its
+text begins in the source (C11).
 
 usage: split.py <repo> <maxlen> -> one JSON line.  Runs under /venv/bin/python."""
 import itertools
@@ -13,8 +14,10 @@ import os
 import sys
 
 
-def spec(s, entity_re):
+def spec(s, entity_re, starts=None):
+    """-> part texts; `starts` (a list) receives the offset in s at which each part's text begins"""
     parts, cur, i = [], '', 0
+    begin = 0
     while i < len(s):
         m = entity_re.match(s, i)
         if m is not None and m.end() > i:
@@ -27,14 +30,21 @@ def spec(s, entity_re):
             continue
         if s[i] == ';':
             parts.append(cur)
+            if starts is not None:
+                starts.append(begin)
             cur = ''
             i += 1
+            begin = i
             continue
         cur += s[i]
         i += 1
     parts.append(cur)
+    if starts is not None:
+        starts.append(begin)
     if len(parts) > 1 and not parts[-1].strip():
         del parts[-1]
+        if starts is not None:
+            del starts[-1]
     return parts
 
 
@@ -50,13 +60,22 @@ def main():
         for t in itertools.product(pieces, repeat=n):
             s = ''.join(t)
             cases += 1
-            want = spec(s, tal.ENTITY_RE)
+            starts = []
+            want = spec(s, tal.ENTITY_RE, starts)
             try:
-                got = [str.__str__(p) for p in tal.split_parts(Token(s, 0, s))]
+                real = tal.split_parts(Token(s, 7, 'tal:x="' + s + '"'))
+                got = [str.__str__(p) for p in real]
             except Exception as e:  # noqa
-                got = 'raised %r' % (e,)
+                real, got = None, 'raised %r' % (e,)
             if got != want:
                 bad = {'value': s, 'expected': want, 'observed': got}
+                break
+            # C11: every part is a token that starts where its text starts in the source (the value
+            # stands at offset 7 of the source here)
+            pos = [getattr(p, 'pos', None) for p in real]
+            if pos != [7 + b for b in starts]:
+                bad = {'value': s, 'expected': {'parts': want, 'positions': [7 + b for b in starts]},
+                       'observed': {'parts': got, 'positions': pos}}
                 break
         if bad:
             break
